@@ -260,3 +260,34 @@ func ReplayH(sp HSpec, events []int, probe bool) {
 	})
 	fmt.Printf("verdict=%s %s\n%s\n", s.Verdict.Kind, s.Verdict.Detail, s.Verdict.Stack)
 }
+
+// ReachableH returns one shortest event history per distinct state fingerprint reachable
+// within sp.Depth events (breadth-first, the empty history first). Concurrent scenarios use
+// it to start from every reachable control state instead of the initial one only.
+func ReachableH(sp HSpec) [][]int {
+	root := hReplay(&sp, nil, -1, false)
+	seen := map[[2]uint64]struct{}{Hash(root.fp): {}}
+	out := [][]int{nil}
+	frontier := [][]int{nil}
+	for d := 0; d < sp.Depth && len(frontier) > 0; d++ {
+		var next [][]int
+		for _, h := range frontier {
+			for ev := range sp.Events {
+				o := hReplay(&sp, h, ev, false)
+				if o.verdict.Kind != vrt.OK || o.viol != nil {
+					continue // the sequential part reports these; not a usable start state
+				}
+				k := Hash(o.fp)
+				if _, ok := seen[k]; ok {
+					continue
+				}
+				seen[k] = struct{}{}
+				nh := append(append([]int(nil), h...), ev)
+				out = append(out, nh)
+				next = append(next, nh)
+			}
+		}
+		frontier = next
+	}
+	return out
+}
